@@ -475,7 +475,14 @@ pub fn tpl_program(r: &mut Rng) -> String {
     r.shuffle(&mut cs);
     let (c1, c2, c3, c4) = (cs[0], cs[1], cs[2], cs[3]);
     let n = r.range(2, 9);
-    match r.below(16) {
+    // shapes that took outside eyes to discover get extra weight
+    let shape = match r.below(21) {
+        16 | 17 | 18 => 15,
+        19 => 0,
+        20 => 4,
+        x => x,
+    };
+    match shape {
         // a sorted CTE referenced twice or three times (sort column not in its select)
         0 => {
             let third = if r.below(2) == 0 {
@@ -572,7 +579,17 @@ pub fn tpl_program(r: &mut Rng) -> String {
         // two errors in one source
         14 => format!("from {t} | select {{{c1}, }} | filter ( | derive = 3\nfrom {u} | select {{nope + }}\n"),
         // several partition keys behind a pipeline split, keys dropped by a later select
-        15 if r.below(2) == 0 => {
+        15 if r.below(4) != 0 => {
+            if r.below(2) == 0 {
+                // the same column in partition and sort, behind a split
+                return match r.below(3) {
+                    0 => format!(
+                        "from {t} | take {n}0 | group {c1} (sort {{{c1}, {c2}}} | derive {{r = row_number this, lg = lag 1 {c2}}}) | select {{{c3}, r, lg}}\n"
+                    ),
+                    1 => format!("from {t} | take {n}0 | group {c1} (sort {{{c1}, {c2}}} | derive {{r = row_number this}}) | select {{{c3}, r}}\n"),
+                    _ => format!("from {t} | take {n}00 | group {c1} (sort {{{c1}, -{c2}}} | take 3) | select {{{c3}}}\n"),
+                };
+            }
             let body = match r.below(3) {
                 0 => format!("sort {c4} | take 2"),
                 1 => format!("sort {{-{c4}}} | derive {{rk = rank {c4}, rs = sum {c4}}}"),
@@ -595,6 +612,15 @@ pub fn tpl_program(r: &mut Rng) -> String {
 /// A near-duplicate of a program: same length, same beginning and end, one
 /// small edit in between (what an editor re-compiling a buffer produces).
 pub fn variant_of(src: &str, r: &mut Rng) -> String {
+    if r.below(3) == 0 {
+        // the same text moved to another offset: everything keyed by content but carrying
+        // positions (spans, locations) must follow
+        return match r.below(3) {
+            0 => format!("# edited\n{src}"),
+            1 => format!("\n\n{src}"),
+            _ => format!("let unused_{} = 1\n{src}", r.below(100)),
+        };
+    }
     let b: Vec<char> = src.chars().collect();
     if b.len() < 24 {
         return src.to_string();
@@ -739,6 +765,9 @@ const DIALECT_SENSITIVE: &[&str] = &[
     "from t | derive {q = a / b, m = a % b, p = math.pow a 2} | filter (q > 1.5) | take 4",
     "from t | select {r = (a / b | math.round 2), c = (s | text.contains 'x'), d = a // b}",
     "from events | select {`time`, `tag`, `percent`, `user`, `top`, `snapshot`} | filter `system` > 1 | sort {`timestamp`}",
+    "from employees | derive {salary * 2} | take 10 | filter (name ~= \"x\")",
+    "from t | derive {a + 1, s\"NOW()\"} | take 5 | derive {d = (b | date.to_text \"%Q\")} | filter a > 1",
+    "from t | select {s = s\"CONCAT({a}, {b})\", f = f\"{a}-{b}\"} | filter (s ~= \"x\") | take 3",
     "from t | derive {`identity` = a, `offset` = b} | select {`identity`, `offset`, `date`, `window`}",
 ];
 
@@ -1039,7 +1068,7 @@ impl<'a> Gen<'a> {
             }));
         }
         sentinel.extend(self.sentinel(&mut r));
-        let heap_perturb = *r.pick(&[0u32, 0, 0, 17, 300, 5000]);
+        let heap_perturb = *r.pick(&[0u32, 0, 0, 7, 40, 300]);
         Plan {
             stratum: "B".into(),
             exec_seed: s,
@@ -1129,7 +1158,7 @@ impl<'a> Gen<'a> {
             log_yield_ppm: *r.pick(&[0u32, 50_000, 500_000, 1_000_000]),
             sentinel,
             keep_log: false,
-            heap_perturb: *r.pick(&[0u32, 0, 0, 17, 300, 5000]),
+            heap_perturb: *r.pick(&[0u32, 0, 0, 7, 40, 300]),
         }
     }
 }
